@@ -129,6 +129,14 @@ theorem geom_writers_agree (v : Nat) (g : LGeom) (hid : int32 g.id) :
   · intro h; simp [toRec, h]
   · intro h; simp [toRec, h]
 
+/-- the worker message of ref_gather_geom (`node_id[k + 3 * i]`): the column rank 0 reads the vertex / id / gref from is the
+    column the packing loop of the worker wrote it to (all six column indices regenerated from the C) -/
+theorem geom_message_columns :
+    GatherMeshb.recvNodeCol = GatherMeshb.packNodeCol ∧ GatherMeshb.recvIdCol = GatherMeshb.packIdCol ∧
+    GatherMeshb.recvGrefCol = GatherMeshb.packGrefCol ∧
+    [GatherMeshb.packNodeCol, GatherMeshb.packIdCol, GatherMeshb.packGrefCol].Nodup ∧
+    GatherMeshb.packNodeCol < 3 ∧ GatherMeshb.packIdCol < 3 ∧ GatherMeshb.packGrefCol < 3 := by decide
+
 /-- the literal flags ref_gather_meshb passes to ref_gather_cell are the ones the model assumes (regenerated from the C) -/
 theorem gather_cell_flags :
     GatherMeshb.alwaysId = true ∧ GatherMeshb.faceidInsteadOfC2n = false ∧ GatherMeshb.selectFaceid = false ∧
